@@ -19,6 +19,8 @@ import PycsepVerif.Model.QuadtreeGeo
     c17_bbox keys                     → `minXW:maxXE:maxYS:minYN` (unit-square rationals) or `E` (empty grid)
     c17_origins keys                  → per key `xW:yS`
     c17_locationof keys idx           → keys of get_location_of(idx) or `E` (IndexError); idx `i,j,…`
+    c17_masked keys pts               → get_masked: per point `1` (in no cell) / `0`
+    c17_filterspatial keys pts        → indices (into pts) of the events filter_spatial keeps
     c17_savekeys keys                 → lines of save_quadtree joined by `|`
     c17_loadkeys line|line|…          → keys parsed from text lines (`-` = no line) or `E` (a character outside 0..3)
   keys: `0213,31,...` or `-`;  pts: `x,y;x,y;...` (rationals) or `-`.
@@ -82,6 +84,15 @@ def handle2 : List String → Option String
       | some ks, some is => (match getLocationOf ks is with
         | some out => showList showKey out
         | none => "E")
+      | _, _ => "bad-op")
+  | ["c17_masked", keys, pts] => some (match parseList? parseKey? keys, parsePts? pts with
+      | some ks, some ps => showList (fun b => if b then "1" else "0") (getMasked ks ps)
+      | _, _ => "bad-op")
+  | ["c17_filterspatial", keys, pts] => some (match parseList? parseKey? keys, parsePts? pts with
+      | some ks, some ps =>
+        -- events are identified by their position: tag each point with its index through a parallel filter
+        let kept := ((List.range ps.length).zip (getMasked ks ps)).filterMap (fun im => if im.2 then none else some im.1)
+        if (filterSpatial ks ps).length = kept.length then showList toString kept else "inconsistent"
       | _, _ => "bad-op")
   | ["c17_savekeys", keys] => some (match parseList? parseKey? keys with
       | some ks => "|".intercalate ((saveLines ks).map String.ofList)
